@@ -111,6 +111,21 @@ def run(tier, seed):
         a = authsim.Assertion(rc, vr.credential_id, cdj, ad, rc.sign(ad + hashlib.sha256(cdj).digest()))
         A.run_case(impl.AuthPolicy(b"e" * 16, "example.com", "https://example.com", vr.credential_public_key, vr.sign_count, False), a, "record", "accept", f"authenticate-after/rsa-exponent-{e}")
         registered.append((f"none/RS256-e{e}", rc, vr.credential_id + bytes([e % 251]), vr.credential_public_key, vr.sign_count))
+    # RSA moduli that are large or not a multiple of 8 bits, PKCS#1 v1.5 and PSS, in every input form (long signatures travel as long base64url members)
+    for bits, kinds2 in ((1025, ("RS256", "PS256")), (1033, ("PS256", "PS512")), (3072, ("RS256",)), (4096, ("RS256", "PS384"))) if not quick else ((1025, ("PS256",)), (1033, ("PS256",)), (4096, ("RS256",))):
+        for kind2 in kinds2:
+            rc = authsim.rsa_cred_bits(bits, kind2)
+            s = regsim.RScn("none", kind2)
+            s.k["cose_bytes"] = rc.cose_bytes
+            pd, reg = regsim.build(s)
+            reg.cred = rc
+            pol = regrun.policy_of(pd)
+            il, ml = B.run_case(pol, reg, "dict", "accept", f"register/none/rsa-{bits}-bit/{kind2}", scn=s)
+            for form in authrun.FORMS:
+                cdj = authsim.client_data("webauthn.get", b"f" * 16, "https://example.com")
+                ad = authsim.authdata("example.com", 0x05, 4)
+                a = authsim.Assertion(rc, s.cred_id, cdj, ad, rc.sign(ad + hashlib.sha256(cdj).digest()))
+                A.run_case(impl.AuthPolicy(b"f" * 16, "example.com", "https://example.com", rc.cose_bytes, 3, False), a, form, "accept", f"authenticate-after/rsa-{bits}-bit/{kind2}")
     for kind in ("ES256-P256", "ES256-P384", "ES512-P521"):
         c = authsim.Cred(kind)
         cdj = authsim.client_data("webauthn.get", b"d" * 16, "https://example.com")
